@@ -1,0 +1,53 @@
+//! Verification seams (only compiled with the `verif-hooks` cargo feature).
+//!
+//! Nothing in this module exists in a normal build. It lets an external
+//! simulator stand in for the file system behind [`Resources`](super::Resources)
+//! and count how often selected branches of the frontend are reached.
+
+use std::{
+    cell::RefCell,
+    collections::BTreeMap,
+    fmt::Debug,
+    path::{Path, PathBuf},
+};
+
+/// Error returned by a simulated file system operation.
+#[derive(Debug, Clone, PartialEq, Eq)]
+pub enum VerifIoError {
+    /// maps to `ResourceError::NotFound`
+    NotFound,
+    /// maps to `ResourceError::IO` with the given message
+    Io(String),
+}
+
+/// A file system implementation provided by a simulator. Each method mirrors
+/// one operation of the `Source::FileSystem` arm in `resources.rs`.
+pub trait VerifFileSystem: Debug + Send + Sync {
+    fn exists(&self, location: &Path) -> bool;
+    fn is_directory(&self, location: &Path) -> bool;
+    fn is_file(&self, location: &Path) -> bool;
+    fn get(&self, location: &Path) -> Result<String, VerifIoError>;
+    /// On error, returns the path the error is attributed to (the parent
+    /// directory when creating it failed, the location otherwise).
+    fn write(&self, location: &Path, content: &str) -> Result<(), (PathBuf, VerifIoError)>;
+    /// Every entry under `location` (itself included), `true` for files.
+    fn walk_all(&self, location: &Path) -> Vec<(PathBuf, bool)>;
+    fn is_empty_directory(&self, location: &Path) -> bool;
+    fn remove(&self, location: &Path) -> Result<(), VerifIoError>;
+}
+
+thread_local! {
+    static PROBES: RefCell<BTreeMap<&'static str, u64>> = const { RefCell::new(BTreeMap::new()) };
+}
+
+/// Record that a branch of interest was reached (thread-local counter).
+pub fn verif_probe(name: &'static str) {
+    PROBES.with(|probes| {
+        *probes.borrow_mut().entry(name).or_insert(0) += 1;
+    });
+}
+
+/// Take (and reset) the probe counters of the current thread.
+pub fn verif_take_probes() -> BTreeMap<&'static str, u64> {
+    PROBES.with(|probes| std::mem::take(&mut *probes.borrow_mut()))
+}
